@@ -1066,7 +1066,23 @@ def _is_simple(e):
 
 
 def _may_return(node):
+    if isinstance(node, (ast.FunctionDef, ast.AsyncFunctionDef, ast.ClassDef)):
+        return False            # (a definition statement: its returns are its own)
     return any(isinstance(x, ast.Return) for x in walk_no_nested(node))
+
+
+def _nested_defs(node):
+    """the function / class definitions directly inside node's body (not those inside them)"""
+    out, todo = [], list(ast.iter_child_nodes(node))
+    while todo:
+        n = todo.pop()
+        if isinstance(n, (ast.FunctionDef, ast.AsyncFunctionDef, ast.ClassDef)):
+            out.append(n)
+            continue
+        if isinstance(n, ast.Lambda):
+            continue
+        todo.extend(ast.iter_child_nodes(n))
+    return out
 
 
 def _always_exits(stmts):
@@ -1100,6 +1116,8 @@ def _stored_names(node):
             out.add(x.name)
         elif isinstance(x, ast.ClassDef) and x is not node:
             out.add(x.name)
+    for d in _nested_defs(node):
+        out.add(d.name)
     return out
 
 
@@ -1178,6 +1196,12 @@ class _Subst(ast.NodeTransformer):
         return node
 
     def visit_ClassDef(self, node):
+        self.generic_visit(node)
+        if node.name in self.renames:
+            node.name = self.renames[node.name]
+        return node
+
+    def visit_FunctionDef(self, node):
         self.generic_visit(node)
         if node.name in self.renames:
             node.name = self.renames[node.name]
@@ -2704,15 +2728,26 @@ class Inliner:
                 if not rets or not all(r.value is not None and immutable(r.value) for r in rets):
                     continue
             bad = False
+            # a local function (a callback closing over the helper's locals) moves with the body, as long as its own names shadow nothing
+            # of the helper: then renaming the helper's locals inside it is renaming the variables it closes over
+            own = {a.arg for a in ast.walk(a) if isinstance(a, ast.arg)} | {x.id for x in walk_no_nested(n) if isinstance(x, ast.Name)
+                                                                           and isinstance(x.ctx, (ast.Store, ast.Del))}
+            local_funcs = set()
+            for d in _nested_defs(n):
+                if isinstance(d, ast.FunctionDef) and not d.decorator_list and not any(
+                        isinstance(y, (ast.Yield, ast.YieldFrom, ast.Await, ast.Global, ast.Nonlocal, ast.FunctionDef, ast.AsyncFunctionDef,
+                                       ast.ClassDef)) and y is not d for y in ast.walk(d)):
+                    inner = {y.arg for y in ast.walk(d.args) if isinstance(y, ast.arg)} | {
+                        y.id for y in ast.walk(d) if isinstance(y, ast.Name) and isinstance(y.ctx, (ast.Store, ast.Del))}
+                    if not inner & (own | {d.name}):
+                        local_funcs.add(d.name)
             for x in walk_no_nested(n):
                 if isinstance(x, (ast.Yield, ast.YieldFrom, ast.Await, ast.Global, ast.Nonlocal)):
                     bad = True
-                if x is not n and isinstance(x, (ast.FunctionDef, ast.AsyncFunctionDef)):
-                    bad = True
-                if x is not n and isinstance(x, ast.ClassDef) and x.name not in local_classes:
-                    bad = True
             for x in ast.walk(n):
-                if x is not n and isinstance(x, (ast.FunctionDef, ast.AsyncFunctionDef)):
+                if x is not n and isinstance(x, ast.AsyncFunctionDef):
+                    bad = True
+                if x is not n and isinstance(x, ast.FunctionDef) and x.name not in local_funcs:
                     bad = True
                 if x is not n and isinstance(x, ast.ClassDef) and x.name not in local_classes:
                     bad = True
